@@ -96,6 +96,27 @@ def run(ctx, for_c10=False):
     ngrid = len(streams)
     for i in range(ctx.scale(1200, 20000)):
         streams.append(("random", random_stream(rng)))
+    # several holds/rolls opened in a random column order and released late (together or not), little else:
+    # the pending tails of ungroup and the buffer of group are exercised at the very end of the stream
+    for i in range(ctx.scale(250, 4000)):
+        cols = rng.randrange(3, 7)
+        order = rng.sample(range(cols), rng.randrange(3, cols + 1))
+        notes = []
+        b = 0
+        for c in order:
+            notes.append([frac(Fraction(b)), c, rng.choice("24"), 0, rng.choice([None, None, 7])]); b += rng.choice([0, 1, 1, 2])
+        end = b + rng.randrange(1, 4)
+        rel = order[:] if rng.random() < .5 else rng.sample(order, len(order))
+        together = rng.random() < .5
+        for j, c in enumerate(rel):
+            if rng.random() < .9:
+                notes.append([frac(Fraction(end if together else end + j)), c, "3", 0, None])
+        if rng.random() < .3:
+            notes.append([frac(Fraction(end + len(rel) + 1)), rng.randrange(cols), "1", 0, None])
+        seen = set(); uniq = []
+        for n in sorted(notes, key=lambda n: (unfrac(n[0]), n[1])):
+            if (n[0], n[1]) not in seen: seen.add((n[0], n[1])); uniq.append(n)
+        streams.append(("late-release", uniq))
     from simfile.notes import NoteData
     for p, i, t in gen.corpus_charts():
         notes = [gen.jnote(n) for n in NoteData(t) if n.player == 0]
